@@ -416,56 +416,143 @@ func runRequestWriter(r *hk.Run, rng *hk.Rand) {
 }
 
 // ---------- HTTP/2: one connection's header encoder over a sequence of requests ----------
-// ClientConn.henc (HPACK dynamic table) and ClientConn.hbuf live as long as the connection: 2..6
-// requests (and trailers) in a row through ONE encoder, every block decoded by ONE reference
-// hpack.Decoder (its dynamic table follows the encoder's) and compared with that request's fields.
+// ClientConn.henc (HPACK dynamic table) and ClientConn.hbuf live as long as the connection: 2..7
+// exchanges (request headers, request trailers) in a row through ONE encoder, every block that is
+// SENT decoded by ONE reference hpack.Decoder (its dynamic table follows the encoder's) and compared
+// with that exchange's fields.  Exchanges the client must REFUSE are part of the sequence at every
+// position: header lists / trailer lists larger than the peer's SETTINGS_MAX_HEADER_LIST_SIZE (limit
+// at size-1 / size / size+1 of some exchange), invalid field names / values.  A refused block is
+// never sent, so it must leave no trace in the encoder: what follows has to decode as before.
 func runH2EncoderSeq(r *hk.Run, rng *hk.Rand) {
-	for i := 0; i < r.Scale(400, 20000); i++ {
-		enc := fh2.VerifNewHeaderEncoder(1 << 20)
+	listSize := func(fs [][2]string) uint64 {
+		n := uint64(0)
+		for _, f := range fs {
+			n += uint64(len(f[0]) + len(f[1]) + 32)
+		}
+		return n
+	}
+	type exch struct {
+		trailers bool
+		req      *http.Request
+		tr       http.Header
+		want     [][2]string
+		invalid  bool
+	}
+	mkExch := func(i, j int) exch {
+		tag := fmt.Sprintf("q%d-%d", i, j%3) // repeated values: served from the dynamic table
+		x := exch{}
+		fat := rng.Chance(30)
+		if j > 0 && rng.Chance(35) {
+			x.trailers = true
+			x.tr = http.Header{"X-Trailer-" + tag: {"t" + tag}, "Grpc-Status": {"0"}}
+			if fat {
+				for f, n := 0, rng.Range(1, 4); f < n; f++ {
+					x.tr.Add(fmt.Sprintf("X-Fat-%d", f), strings.Repeat("z", rng.Range(40, 160))+tag)
+				}
+			}
+			for k, vv := range x.tr {
+				for _, v := range vv {
+					x.want = append(x.want, [2]string{strings.ToLower(k), v})
+				}
+			}
+			return x
+		}
+		x.req = writerRequest(rng, tag)
+		if fat {
+			for f, n := 0, rng.Range(1, 4); f < n; f++ {
+				x.req.Header.Add(fmt.Sprintf("X-Fat-%d", f), strings.Repeat("y", rng.Range(40, 160))+tag)
+			}
+		}
+		if rng.Chance(8) { // refused before anything is encoded: invalid name / value
+			x.invalid = true
+			if rng.Bool() {
+				x.req.Header["X Bad"] = []string{"v"}
+			} else {
+				x.req.Header.Add("X-Bad", "a\nb"+tag)
+			}
+		}
+		x.want = [][2]string{{":authority", x.req.URL.Host}, {":method", x.req.Method}, {":path", x.req.URL.RequestURI()}, {":scheme", "https"}}
+		for k, vv := range x.req.Header {
+			for _, v := range vv {
+				x.want = append(x.want, [2]string{strings.ToLower(k), v})
+			}
+		}
+		if sendsContentLength(x.req.Method, 0) {
+			x.want = append(x.want, [2]string{"content-length", "0"})
+		}
+		return x
+	}
+	n := r.Scale(700, 30000)
+	for i := 0; i < n; i++ {
+		k := rng.Range(2, 7)
+		xs := make([]exch, k)
+		for j := range xs {
+			xs[j] = mkExch(i, j)
+		}
+		// the peer's limit: generous, or around the size of one exchange of the sequence
+		limit := uint64(1 << 20)
+		if rng.Chance(75) {
+			limit = uint64(int(listSize(xs[rng.Intn(k)].want)) + rng.Range(-1, 1))
+		}
+		enc := fh2.VerifNewHeaderEncoder(limit)
 		dec := hpack.NewDecoder(4096, nil)
-		k := rng.Range(2, 6)
-		for j := 0; j < k; j++ {
-			tag := fmt.Sprintf("q%d-%d", i, j%3) // repeated values: served from the dynamic table
-			req := writerRequest(rng, tag)
-			desc := map[string]interface{}{"kind": "h2-encoder-seq", "position": j, "url": req.URL.String(), "header": fmt.Sprint(req.Header)}
+		var coq []string
+		sawRefused := false
+		for j, x := range xs {
+			desc := map[string]interface{}{"kind": "h2-encoder-seq", "position": j, "peer_max_header_list_size": limit, "trailers": x.trailers, "fields": fmt.Sprintf("%q", x.want), "list_size": listSize(x.want)}
 			r.Count("enc.h2.seq")
 			var block []byte
 			var err error
-			var want [][2]string
-			if j > 0 && rng.Chance(20) { // trailers of the previous request in between
-				tr := http.Header{"X-Trailer-" + tag: {"t" + tag}, "Grpc-Status": {"0"}}
-				block, err = enc.EncodeTrailers(tr)
-				for k, vv := range tr {
-					for _, v := range vv {
-						want = append(want, [2]string{strings.ToLower(k), v})
-					}
-				}
+			if x.trailers {
+				block, err = enc.EncodeTrailers(x.tr)
 			} else {
-				block, err = enc.EncodeHeaders(req, false, "", 0)
-				want = [][2]string{{":authority", req.URL.Host}, {":method", req.Method}, {":path", req.URL.RequestURI()}, {":scheme", "https"}}
-				for k, vv := range req.Header {
-					for _, v := range vv {
-						want = append(want, [2]string{strings.ToLower(k), v})
-					}
+				block, err = enc.EncodeHeaders(x.req, false, "", 0)
+			}
+			mustRefuse := listSize(x.want) > limit
+			if x.invalid {
+				if err == nil {
+					r.Fail(hk.Failure{Sig: "enc:h2:seq:invalid-accepted", What: "a request with an invalid header field name or value was encoded", Input: desc})
 				}
-				if sendsContentLength(req.Method, 0) {
-					want = append(want, [2]string{"content-length", "0"})
-				}
+				r.Count("enc.h2.seq.refused-invalid")
+				sawRefused = true
+				continue
+			}
+			coq = append(coq, hk.CoqPair(coqStrPairs(x.want), hk.CoqBool(err != nil)))
+			switch {
+			case mustRefuse && err == nil:
+				r.Fail(hk.Failure{Sig: "enc:h2:seq:over-limit-sent", What: "a header / trailer list larger than the peer's SETTINGS_MAX_HEADER_LIST_SIZE was encoded for sending", Input: desc})
+			case !mustRefuse && err != nil:
+				r.Fail(hk.Failure{Sig: "enc:h2:seq:error", What: "a valid header / trailer list within the peer's limit was refused", Input: desc, Got: err.Error()})
 			}
 			if err != nil {
-				r.Fail(hk.Failure{Sig: "enc:h2:seq:error", What: "encodeHeaders refused a valid request", Input: desc, Got: err.Error()})
-				break
+				if mustRefuse && err.Error() != "http2: request header list larger than peer's advertised limit" {
+					r.Fail(hk.Failure{Sig: "enc:h2:seq:wrong-refusal", What: "an over-limit list was refused with another error", Input: desc, Got: err.Error()})
+				}
+				r.Count("enc.h2.seq.refused-over-limit")
+				sawRefused = true
+				continue // never sent: the peer's decoder does not see it
 			}
 			fields, derr := dec.DecodeFull(block)
 			var got [][2]string
 			for _, f := range fields {
 				got = append(got, [2]string{f.Name, f.Value})
 			}
-			if derr != nil || fmt.Sprint(multiset(got)) != fmt.Sprint(multiset(want)) {
-				r.Fail(hk.Failure{Sig: "enc:h2:seq:hpack-decode", What: "the reference hpack decoder, fed every header block of the connection in order, does not get this request's fields from its block", Input: desc, Got: fmt.Sprintf("%q %v", got, derr), Want: fmt.Sprintf("%q", want)})
+			if derr != nil || fmt.Sprint(multiset(got)) != fmt.Sprint(multiset(x.want)) {
+				sig := "enc:h2:seq:hpack-decode"
+				if sawRefused {
+					sig = "enc:h2:seq:hpack-decode-after-refused"
+				}
+				r.Fail(hk.Failure{Sig: sig, What: "the reference hpack decoder, fed every header block the connection SENT in order, does not get this exchange's fields from its block (encoder and peer dynamic tables out of step)", Input: desc, Got: fmt.Sprintf("%q %v", got, derr), Want: fmt.Sprintf("%q", x.want)})
 				break
 			}
-			r.Add(hk.Case{Desc: desc}, fmt.Sprint("h2es|", i, j, req.URL, req.Header), true)
+			if sawRefused {
+				r.Count("enc.h2.seq.sent-after-refused")
+			}
 		}
+		c := hk.Case{Desc: map[string]interface{}{"kind": "h2-encoder-seq", "peer_max_header_list_size": limit, "exchanges": k}}
+		if i%3 == 0 && limit < 1<<20 {
+			c.Coq = fmt.Sprintf("H2EncSeq %d %s", limit, hk.CoqList(coq))
+		}
+		r.Add(c, fmt.Sprint("h2es|", i, limit, k), true)
 	}
 }
